@@ -24,8 +24,17 @@ def _imp():
     return cincoconfig
 
 
+_TMPS = []
+
+
 def _tmp():
-    return tempfile.mkdtemp(prefix="verifw_")
+    d = tempfile.mkdtemp(prefix="verifw_")
+    if not _TMPS:
+        import atexit
+        import shutil as _sh
+        atexit.register(lambda: [_sh.rmtree(x, ignore_errors=True) for x in _TMPS])
+    _TMPS.append(d)
+    return d
 
 
 WITNESSES = {}
